@@ -1,3 +1,4 @@
+import WalrusVerif.Model.AMap
 /-!
 Cluster metadata state machine: `distributed-walrus/src/metadata.rs` (`Metadata::apply`,
 `snapshot`, `restore`) and the bincode 1.x wire format of `MetadataCmd`.
@@ -6,26 +7,9 @@ overflow — the behaviour after the `fix:` commit recorded in KNOWN_FINDINGS.tx
 Maps are association lists without duplicate keys (`AMap.insert` replaces).
 -/
 namespace WalrusVerif.Meta
+open WalrusVerif
 
 abbrev Name := List Char
-
-/-! ### association maps -/
-def AMap (κ ν : Type) := List (κ × ν)
-
-namespace AMap
-variable {κ ν : Type} [DecidableEq κ]
-def empty : AMap κ ν := []
-def get? (m : AMap κ ν) (k : κ) : Option ν :=
-  match m with
-  | [] => none
-  | (k', v) :: r => if k' = k then some v else get? r k
-def erase (m : AMap κ ν) (k : κ) : AMap κ ν :=
-  match m with
-  | [] => []
-  | (k', v) :: r => if k' = k then erase r k else (k', v) :: erase r k
-def insert (m : AMap κ ν) (k : κ) (v : ν) : AMap κ ν := (k, v) :: erase m k
-def contains (m : AMap κ ν) (k : κ) : Bool := (get? m k).isSome
-end AMap
 
 structure TopicState where
   currentSegment : Nat
